@@ -5,11 +5,11 @@
 From Coq Require Import List Arith ZArith.
 From VBase Require Import FieldOps.
 From VBase Require Import MachInt.
-From VModel Require Import Composition CompositionLagrange.
+From VModel Require Import Composition CompositionLagrange CompositionMixed ExtField.
 From VModel Require Enforce EnforceLagrange.
 From VModel Require FFT Stark.
 From VProofs Require FFTSpec FFTEval FFTOffset FFTSegments StarkPoly.
-From VProofs Require Import ZpLaws CompositionBase CompositionIndex CompositionVerifier CompositionTable CompositionFFT CompositionValid CompositionLagrange CompositionLagrangeTable CompositionExamples.
+From VProofs Require Import ZpLaws CompositionBase CompositionIndex CompositionVerifier CompositionTable CompositionFFT CompositionValid CompositionLagrange CompositionLagrangeTable CompositionLagrangePoly CompositionMixed CompositionMixedInst ExtModel ExtConcrete CompositionExamples.
 Import ListNotations.
 Local Open Scope nat_scope.
 
@@ -543,6 +543,187 @@ Theorem C17_table_with_lagrange :
 Proof. exact @evaluate_with_lagrange. Qed.
 Print Assumptions C17_table_with_lagrange.
 
+(* ---- round 7 (B): the Lagrange-kernel terms are POLYNOMIALS.  For the kernel column polynomial Lp whose numerators vanish on
+        their enforcement subgroups (hypothesis `numer_vanishes`: what C16_lagrange_honest_numerators_vanish proves, row by row,
+        for the honest column; the translation of that Z-indexed row statement to this point statement is NOT done here) and whose
+        first cell is the asserted value: numerator_idx = (x^(2^idx) - 1) * q_idx as polynomials (via C01's vanish_divisible) *)
+Theorem C17_lagrange_term_is_poly :
+  forall (F : Type) (O0 : FOps F),
+         FLaws O0 ->
+         forall (n v : nat) (g : F),
+         n = 2 ^ v ->
+         StarkPoly.primitive_root O0 g n ->
+         forall Lp rr : list F,
+         length rr = v ->
+         (forall idx j : nat,
+          idx < v -> j < 2 ^ idx -> peval O0 (lag_numer_poly O0 v g Lp rr idx) (cpow O0 (hsub O0 v g idx) j) = fzero O0) ->
+         forall idx : nat,
+         idx < v ->
+         exists q : list F,
+           length q = length Lp - 2 ^ idx /\
+           (forall x : F,
+            peval O0 (lag_numer_poly O0 v g Lp rr idx) x =
+            fmul O0 (fsub O0 (cpow O0 x (2 ^ idx)) (fone O0)) (peval O0 q x)).
+Proof. exact @lagrange_term_is_poly. Qed.
+Print Assumptions C17_lagrange_term_is_poly.
+
+Theorem C17_lagrange_boundary_is_poly :
+  forall (F : Type) (O0 : FOps F),
+         FLaws O0 ->
+         forall Lp rr : list F,
+         peval O0 Lp (fone O0) = EnforceLagrange.lag_assertion_value O0 rr ->
+         exists q : list F,
+           length q = length Lp - 1 /\
+           (forall x : F,
+            fsub O0 (peval O0 Lp x) (EnforceLagrange.lag_assertion_value O0 rr) =
+            fmul O0 (fsub O0 x (fone O0)) (peval O0 q x)).
+Proof. exact @lagrange_boundary_is_poly. Qed.
+Print Assumptions C17_lagrange_boundary_is_poly.
+
+(* ... hence lag_def agrees with ONE coefficient list (at most |Lp| coefficients) wherever no Lagrange divisor vanishes *)
+Theorem C17_lag_def_is_poly :
+  forall (F : Type) (O0 : FOps F),
+         FLaws O0 ->
+         forall (n v : nat) (g : F),
+         n = 2 ^ v ->
+         StarkPoly.primitive_root O0 g n ->
+         forall Lp rr : list F,
+         length rr = v ->
+         (forall idx j : nat,
+          idx < v -> j < 2 ^ idx -> peval O0 (lag_numer_poly O0 v g Lp rr idx) (cpow O0 (hsub O0 v g idx) j) = fzero O0) ->
+         peval O0 Lp (fone O0) = EnforceLagrange.lag_assertion_value O0 rr ->
+         forall rou : nat -> F,
+         g = gtrace n rou ->
+         forall (t : EnforceLagrange.LagTC) (lb : F),
+         exists Q : list F,
+           length Q <= length Lp /\ (forall x : F, lag_good O0 v x -> lag_def O0 n rou v Lp t rr lb x = peval O0 Q x).
+Proof. exact @lag_def_is_poly. Qed.
+Print Assumptions C17_lag_def_is_poly.
+
+(* capstone with the Lagrange terms, PARTIAL (compositional): given
+     ev  = what evaluate returns with the Lagrange hook = cdef + ldef over the ce coset          (C17_table_with_lagrange),
+     Qc  = a coefficient list for cdef = comp_def off the trace domain                          (comp_def_is_poly, C01; as in
+                                                                                                  C17_composition_is_definition),
+     Ql  = a coefficient list for ldef = lag_def off the Lagrange divisor zeros                 (C17_lag_def_is_poly),
+     the interpolation round trip on the ce coset                                               (C09: interp_fft_roundtrip),
+   CompositionPoly::new succeeds and the committed columns recombine to Qc + Ql at EVERY z and to comp_def(z) + lag_def(z)
+   wherever both are defined.  REMAINING to make it unconditional in the style of C17_composition_is_definition: instantiate
+   the four premises from their theorems in one statement (each is proved separately above), and derive `numer_vanishes` from
+   C16_lagrange_honest_numerators_vanish. *)
+Theorem C17_composition_is_definition_lagrange_partial :
+  forall (F : Type) (O0 : FOps F),
+         FLaws O0 ->
+         forall (n ceb : nat) (offset : F) (rou : nat -> F),
+         n <> 0 ->
+         forall interp : list F -> list F,
+         (forall p : list F,
+          length p = ce_size n ceb ->
+          interp (map (fun i : nat => peval O0 p (ce_x O0 n ceb offset rou i)) (seq 0 (ce_size n ceb))) = p) ->
+         forall num_cols : nat,
+         n < ce_size n ceb ->
+         forall (cdef ldef : F -> F) (goodc goodl : F -> Prop) (Qc Ql : list F) (ev : option (list F)),
+         ev =
+         Some
+           (map (fun i : nat => fadd O0 (cdef (ce_x O0 n ceb offset rou i)) (ldef (ce_x O0 n ceb offset rou i)))
+              (seq 0 (ce_size n ceb))) ->
+         (forall z : F, goodc z -> peval O0 Qc z = cdef z) ->
+         (forall z : F, goodl z -> peval O0 Ql z = ldef z) ->
+         (forall i : nat, i < ce_size n ceb -> goodc (ce_x O0 n ceb offset rou i) /\ goodl (ce_x O0 n ceb offset rou i)) ->
+         Nat.max (length Qc) (length Ql) <= ce_size n ceb ->
+         Nat.max (length Qc) (length Ql) <= num_cols * n ->
+         exists (evals : list F) (cols : list (list F)),
+           ev = Some evals /\
+           composition_poly_new n interp evals num_cols = Some cols /\
+           (forall z : F, recombine O0 n (cp_evaluate_at O0 cols z) z = peval O0 (Stark.padd O0 Qc Ql) z) /\
+           (forall z : F, goodc z -> goodl z -> recombine O0 n (cp_evaluate_at O0 cols z) z = fadd O0 (cdef z) (ldef z)).
+Proof. exact @composition_is_definition_lagrange_partial. Qed.
+Print Assumptions C17_composition_is_definition_lagrange_partial.
+
+(* ---- round 7 (A): extension fields.  `Emb OB OE emb mul_base`: emb is an injective ring homomorphism B -> E with
+        mul_base x b = x * emb b.  Every MIXED operation of the pipeline (coq/Model/CompositionMixed.v: the places where the Rust
+        code uses mul_base / E::from / polynom::eval::<B, E>) is the single-field operation over OE on the embedded base-field
+        inputs, and what the prover computes in B before embedding (inverses, domain points, FFT-style evaluations, Horner
+        values) commutes with emb.  So a C17 theorem instantiated at F := E (FLaws for the concrete extensions: C08) describes
+        the mixed computation; C17_boundary_repr_equiv_ext is such a corollary, obtained from C17_boundary_repr_equiv.
+        REMAINING: a mixed model of the WHOLE evaluate()/evaluate_constraints (rows, groups, merge) and its equality with the
+        single-field model on embedded inputs — only the mixed primitive operations are modelled and transported; the
+        composition of these equalities along the pipeline is not assembled. *)
+Theorem C17_mixed_ops_are_embedded :
+  forall (B E : Type) (OB : FOps B) (OE : FOps E),
+         FLaws OB ->
+         FLaws OE ->
+         forall (emb : B -> E) (mul_base : E -> B -> E),
+         Emb OB OE emb mul_base ->
+         (forall b : B, emb (finv OB b) = finv OE (emb b)) /\
+         (forall (p : list B) (x : B), emb (peval OB p x) = peval OE (map emb p) (emb x)) /\
+         (forall (p : list B) (x : E), horner_mixed OE emb p x = horner OE (map emb p) x) /\
+         (forall (rouB : nat -> B) (p : list B) (off : B) (blowup : nat),
+          map emb (eval_poly_with_offset OB rouB p off blowup) =
+          eval_poly_with_offset OE (fun m : nat => emb (rouB m)) (map emb p) (emb off) blowup) /\
+         (forall (n ceb : nat) (offset : B) (rouB : nat -> B) (step : nat),
+          emb (ce_x OB n ceb offset rouB step) = ce_x OE n ceb (emb offset) (fun m : nat => emb (rouB m)) step) /\
+         (forall (evals : list B) (coefs : list E),
+          lincomb_mixed OE mul_base evals coefs = lincomb OE (map emb evals) coefs) /\
+         (forall (col : nat) (value : B) (cc : E) (state : list B),
+          single_eval_mixed OB mul_base col value cc state =
+          single_eval OE {| sc_col := col; sc_value := emb value; sc_cc := cc |} (map emb state)) /\
+         (forall (col : nat) (poly : list B) (xoff : B) (cc : E) (state : list B) (x : B),
+          small_eval_mixed OB mul_base col poly xoff cc state x =
+          small_eval OE {| pc_col := col; pc_poly := map emb poly; pc_xoff := emb xoff; pc_cc := cc |} 
+            (map emb state) (emb x)) /\
+         (forall (col : nat) (values : list B) (so : nat) (cc : E) (state : list B) (step : nat),
+          large_eval_mixed OB mul_base col values so cc state step =
+          large_eval OE {| lc_col := col; lc_values := map emb values; lc_step_offset := so; lc_cc := cc |}
+            (map emb state) step) /\
+         (forall (acc value : E) (z e : B),
+          acc_boundary_mixed OE mul_base acc value z = fadd OE acc (fmul OE value (emb z)) /\
+          acc_transition_mixed OB OE mul_base acc value z e = fadd OE acc (fmul OE value (fmul OE (emb z) (emb e)))) /\
+         (forall (col first : nat) (poly : list B) (xoff : B) (cc x tv : E),
+          bc_evaluate_at_mixed OB OE emb poly xoff x tv =
+          bc_evaluate_at OE
+            {| bc_col := col; bc_poly := map emb poly; bc_first := first; bc_xoff := emb xoff; bc_cc := cc |} x tv) /\
+         (forall (n : nat) (ppolys : list (list B)) (x : E),
+          periodic_at_mixed OE emb n ppolys x = periodic_at OE n (map (map emb) ppolys) x).
+Proof. exact @mixed_ops_are_embedded. Qed.
+Print Assumptions C17_mixed_ops_are_embedded.
+
+Theorem C17_boundary_repr_equiv_ext :
+  forall (B E : Type) (OB : FOps B) (OE : FOps E),
+         FLaws OB ->
+         FLaws OE ->
+         forall (emb : B -> E) (mul_base : E -> B -> E),
+         Emb OB OE emb mul_base ->
+         forall (n ceb : nat) (offset : B) (rouB : nat -> B),
+         n <> 0 ->
+         ceb <> 0 ->
+         cpow OB (rouB (n * ceb)) (n * ceb) = fone OB ->
+         cpow OB (rouB (n * ceb)) ceb = rouB n ->
+         forall ginv : B,
+         fmul OB ginv (rouB n) = fone OB ->
+         forall (col first : nat) (poly : list B) (cc : E) (state : list B) (s : B),
+         nth_error state col = Some s ->
+         length poly <> 0 ->
+         first < n ->
+         length poly * (n * ceb / length poly) = n * ceb ->
+         forall step : nat,
+         step < n * ceb ->
+         let xB := ce_x OB n ceb offset rouB step in
+         let spec := Some (fmul OE cc (bc_evaluate_at_mixed OB OE emb poly (cpow OB ginv first) (emb xB) (emb s))) in
+         small_eval_mixed OB mul_base col poly (cpow OB ginv first) cc state xB = spec /\
+         large_eval_mixed OB mul_base col (eval_poly_with_offset OB rouB poly offset (n * ceb / length poly))
+           (first * ceb) cc state step = spec /\
+         (length poly = 1 -> single_eval_mixed OB mul_base col (nth 0 poly (fzero OB)) cc state = spec).
+Proof. exact @boundary_repr_equiv_ext. Qed.
+Print Assumptions C17_boundary_repr_equiv_ext.
+
+(* the hypotheses hold for the quadratic and the cubic extension of f64 (C08), which are fields *)
+Theorem C17_ext_f64_embeddings :
+  Emb F64_ops (q_ops F64_ops (f64_x2 F64_ops)) (q_from_base F64_ops) (q_mul_base (f64_x2 F64_ops))
+  /\ Emb F64_ops (c_ops F64_ops (f64_x3 F64_ops)) (c_from_base F64_ops) (c_mul_base (f64_x3 F64_ops))
+  /\ FLaws (q_ops F64_ops (f64_x2 F64_ops)) /\ FLaws (c_ops F64_ops (f64_x3 F64_ops)).
+Proof. exact (conj quad_f64_emb (conj cube_f64_emb (conj f64_quad_laws f64_cube_laws))). Qed.
+Print Assumptions C17_ext_f64_embeddings.
+
 (* ---- non-vacuity: each theorem above instantiated in the 64-bit field with ALL hypotheses discharged
         (Proofs/CompositionExamples.v).  Instance A: trace length 2, ce blowup 2, a periodic column, an auxiliary column,
         a single-value group at step 0, a two-value sequence group with first step 1, an auxiliary group sharing the first
@@ -618,3 +799,8 @@ Example C17_lagrange_row_spec_nonvacuous :
   lagrange_evaluate F64_ops 2 2 2 (e64 7) rouA 1 ldeLagA tLagA [e64 9] (e64 4)
   = Some (map (fun i => lag_def F64_ops 2 rouA 1 LpA tLagA [e64 9] (e64 4) (ce_x F64_ops 2 2 (e64 7) rouA i)) (seq 0 (ce_size 2 2))).
 Proof. exact lagrange_evaluate_spec_instance. Qed.
+
+Example C17_lag_def_is_poly_nonvacuous :
+  exists Q, length Q <= length LpK /\ forall x, lag_good F64_ops 1 x ->
+    lag_def F64_ops 2 rouA 1 LpK tLagA [r0L] (e64 4) x = peval F64_ops Q x.
+Proof. exact lag_def_is_poly_instance. Qed.
